@@ -155,7 +155,12 @@ def run_meta(ctx, variants_fn, n_valid, n_mut, what, rule, trusted, k=4):
         evaluated = engine.run_items_grouped(ctx, iitems, coq_file_fn=I.coq_cases_file_i) and evaluated
         for it in iitems:
             it.scenario = {"native": it.scenario["native"], "imports": [{kk: vv for kk, vv in imp.items() if kk != "builder"} for imp in it.scenario["imports"]]}
-        items = items + pitems + iitems
+        # import trees: the root's `imports` array as generated and reversed (a file reached by two entries, each with
+        # its own connections, must be stitched whichever entry is met first)
+        okd, ditems = engine.import_tree_family(ctx, rng, max(2, n_valid // 4) * scale, shapes=["diamond", "diamond_plus", "chain3_shortcut", "deep_diamond", "diamond", None],
+                                                reversed_too=True, do_report=False)
+        evaluated = okd and evaluated
+        items = items + pitems + iitems + ditems
     if variants_fn is variants_c15:
         # reference spelling inside pipelines (sources, traversal refs, filter operands, the written promise)
         import pipes
@@ -243,6 +248,62 @@ def run_meta(ctx, variants_fn, n_valid, n_mut, what, rule, trusted, k=4):
         for it in iitems:
             it.scenario = {"native": it.scenario["native"], "imports": [{kk: vv for kk, vv in imp.items() if kk != "builder"} for imp in it.scenario["imports"]]}
         items = items + iitems
+    if variants_fn is variants_c15:
+        # names outside the alias alphabet (".", ":", a leading "_"): whatever the verdict on such a document is, it is
+        # the same whether its references are written by id or by name (implementation alone; the abstract scenario
+        # has no notion of spelling, so these documents are not shown to the model)
+        import impl as _impl, copy as _cp
+        KINDS = {"party": ("parties", "name"), "object_type": ("object_types", "name"), "object_promise": ("object_promises", "name"),
+                 "action": ("actions", "name"), "checkpoint": ("checkpoints", "alias"), "thread_group": ("thread_groups", "name")}
+
+        def rename(doc, kind, make):
+            coll, field = KINDS[kind]
+            ents = [e for e in doc.get(coll) or [] if isinstance(e.get(field), str)]
+            if not ents:
+                return None
+            mp = {e[field]: make(e[field]) for e in ents}
+
+            def walk(x):
+                if isinstance(x, dict):
+                    return {kk: walk(vv) for kk, vv in x.items()}
+                if isinstance(x, list):
+                    return [walk(y) for y in x]
+                if isinstance(x, str):
+                    for old, new in mp.items():
+                        x = x.replace("%s:{%s}" % (kind, old), "%s:{%s}" % (kind, new))
+                    return x
+                return x
+            d = walk(doc)
+            for e in d[coll]:
+                if e.get(field) in mp:
+                    e[field] = mp[e[field]]
+            return d
+        pairs = []
+        makers = [("dot inside", lambda n: n[:1] + "." + n[1:]), ("dot at the end", lambda n: n + " Inc."), ("colon", lambda n: n + ":x"), ("leading underscore", lambda n: "_" + n)]
+        for i in range(8 * scale):
+            s0 = S.gen_valid(rng, threads=(i % 2 == 1))
+            seed = rng.randrange(1 << 30)
+            d_id, d_al = S.render(s0, random.Random(seed), "id", False, False), S.render(s0, random.Random(seed), "alias", False, False)
+            for kind in KINDS:
+                wh, mk = makers[(i + len(pairs)) % len(makers)]
+                a, b_ = rename(d_id, kind, mk), rename(d_al, kind, mk)
+                if a is not None and b_ is not None:
+                    pairs.append((kind, wh, a, b_))
+        pool = _impl.Pool(ctx)
+        res = pool.validate_many([x for p_ in pairs for x in (p_[2], p_[3])])
+        pool.close()
+        nflip = 0
+        for j, (kind, wh, a, b_) in enumerate(pairs):
+            ra, rb = res[2 * j], res[2 * j + 1]
+            if (ra["outcome"] == "accept") != (rb["outcome"] == "accept"):
+                nflip += 1
+                if nflip <= 2:
+                    acc, rej, racc, rrej = (a, b_, "id", "alias") if ra["outcome"] == "accept" else (b_, a, "alias", "id")
+                    ctx.violation({"what": what, "kind": "names outside the alias alphabet (%s names: %s)" % (kind, wh),
+                                   "accepted_rendering": {"spelling": racc}, "accepted_document": acc,
+                                   "rejected_rendering": {"spelling": rrej}, "rejected_document": rej,
+                                   "rejected_errors": (rb if acc is a else ra)["errors"][:4], "exc": (rb if acc is a else ra)["exc"]})
+        ctx.coverage["odd_name_pairs"] = {"pairs": len(pairs), "verdict_flips": nflip, "accepted_both": sum(1 for j in range(len(pairs)) if res[2 * j]["outcome"] == "accept" and res[2 * j + 1]["outcome"] == "accept")}
     # metamorphic relation on the implementation alone
     by = collections.defaultdict(list)
     for it in items:
